@@ -46,6 +46,13 @@ impl LocalStorage {
     /// `..` segments as well as platform-absolute segments (e.g. a Windows
     /// `C:\\...` or UNC `\\\\server\\share` segment, which `PathBuf::push` would
     /// otherwise treat as absolute and use to discard the configured root).
+    /// Verification hook: a store rooted at an arbitrary directory.
+    #[cfg(folo_verif)]
+    #[must_use]
+    pub fn verif_new(root: impl Into<PathBuf>) -> Self {
+        Self::new(root)
+    }
+
     fn key_path(&self, key: &str) -> Result<PathBuf, StorageError> {
         validate_key(key)?;
         let mut path = self.root.clone();
@@ -71,6 +78,8 @@ impl Storage for LocalStorage {
         // or half-written file. Concurrent writers of the same key do not arise
         // in practice: object keys are partitioned by commit and discriminant,
         // and duplicate commits are rejected a layer above.
+        #[cfg(folo_verif)]
+        let _ = crate::verif::sim_point("put:before-exists-check").await;
         match tokio::fs::try_exists(&path).await {
             Ok(true) => {
                 return Err(ObjectAlreadyExistsError::new(key.to_owned()).into());
@@ -82,6 +91,8 @@ impl Storage for LocalStorage {
                 );
             }
         }
+        #[cfg(folo_verif)]
+        let _ = crate::verif::sim_point("put:after-exists-check").await;
         let compressed = cbh_codec::compress(bytes);
         write_atomic(&path, &compressed)
             .await
@@ -242,7 +253,21 @@ async fn write_atomic(target: &Path, bytes: &[u8]) -> io::Result<()> {
     // Close the handle (end of the block) before the rename: Windows refuses to
     // rename a file that is still open.
     let written = async {
+        #[cfg(folo_verif)]
+        crate::verif::sim_point("write:before-create").await?;
         let mut file = tokio::fs::File::create(&temp).await?;
+        #[cfg(folo_verif)]
+        {
+            crate::verif::sim_point("write:after-create").await?;
+            let (first_half, second_half) = bytes.split_at(bytes.len().div_euclid(2));
+            file.write_all(first_half).await?;
+            crate::verif::sim_point("write:mid-payload").await?;
+            file.write_all(second_half).await?;
+            crate::verif::sim_point("write:after-write").await?;
+            file.flush().await?;
+            crate::verif::sim_point("write:after-flush").await?;
+        }
+        #[cfg(not(folo_verif))]
         file.write_all(bytes).await?;
         // Tokio's `File` does not flush its buffer on drop, so flush explicitly
         // to guarantee every byte is durable before the rename publishes it.
@@ -255,10 +280,17 @@ async fn write_atomic(target: &Path, bytes: &[u8]) -> io::Result<()> {
         let _cleanup = tokio::fs::remove_file(&temp).await;
         return Err(error);
     }
+    #[cfg(folo_verif)]
+    if let Err(error) = crate::verif::sim_point("write:before-rename").await {
+        let _cleanup = tokio::fs::remove_file(&temp).await;
+        return Err(error);
+    }
     if let Err(error) = tokio::fs::rename(&temp, target).await {
         let _cleanup = tokio::fs::remove_file(&temp).await;
         return Err(error);
     }
+    #[cfg(folo_verif)]
+    let _ = crate::verif::sim_point("write:after-rename").await;
     Ok(())
 }
 
